@@ -1,5 +1,6 @@
 """C10 -- PickAPerm returns exactly the best input rankings."""
 from .. import grids
+from ..framework import Model
 from . import algo_common as ac
 
 PID = "C10"
@@ -28,6 +29,12 @@ def _still_incomplete_without_empties():
             if len(rest) >= 2 and len({tuple(grids.dom(r)) for r in rest}) > 1:
                 out.append(D)
     return out
+
+
+def models(tier):
+    return [Model("MC_PickScan", "MC_PickScan.cfg", "the scan loop of PickAPerm as a state machine over every score sequence "
+                  "of <= 5 rankings with scores 0..3: after k rankings the kept list is the definition's answer for the "
+                  "first k scores (inductive form of 'minimum, every minimal input ranking'), terminates")]
 
 
 def stages(tier, rng, only=None):
